@@ -79,6 +79,7 @@ def catalogue():
                         "dbg": cfg["dbg"],
                         "bounded": bound,
                         "unwind": next((int(re.search(r"\d+", a).group()) for a in attrs if "unwind" in a), None),
+                        "stub": any("kani::stub" in a for a in attrs),
                     }
                     attrs = []
     return cat
@@ -133,6 +134,8 @@ def run_harness(name, h, worker, tier):
         "cargo", "kani", "--no-default-features", "--features", FEATURES,
         "--target-dir", tdir, "--harness", h["fq"], "--exact", "--output-format", "regular",
     ]
+    if h.get("stub"):
+        cmd[2:2] = ["-Z", "stubbing"]
     t0 = time.time()
     try:
         p = subprocess.run(cmd, cwd=REPO, env=kani_env(h["dbg"]), stdout=subprocess.PIPE, stderr=subprocess.STDOUT,
@@ -195,7 +198,15 @@ def split_checks(res):
     for c in res["checks"]:
         m = TAG_RE.match(c["desc"])
         if ".cover." in c["name"] or c["name"].endswith(".cover") or re.search(r"\.cover\.\d+$", c["name"]):
-            covers.append((c["desc"], c["status"]))
+            # the same cover may be compiled into several branches / instances: best status wins
+            rank = {"SATISFIED": 3, "UNDETERMINED": 2, "UNSATISFIABLE": 1, "UNREACHABLE": 0}
+            for k, (d0, s0_) in enumerate(covers):
+                if d0 == c["desc"]:
+                    if rank.get(c["status"], 2) > rank.get(s0_, 2):
+                        covers[k] = (d0, c["status"])
+                    break
+            else:
+                covers.append((c["desc"], c["status"]))
             continue
         if m:
             tag = m.group(0)
